@@ -1,4 +1,5 @@
 #![allow(dead_code)]
+mod c01;
 mod c04;
 mod c09;
 mod c11;
@@ -41,6 +42,13 @@ struct Prop {
 
 fn props() -> Vec<Prop> {
     vec![Prop {
+        id: "C01",
+        rule: "case = (grammar: family / random Lark / random regex with Lean model; vocabulary: single-byte, synthetic multi-byte; canonical or not; seeded walk through the masks); at every state every token id is validated and committed on clones and compared with mask membership, random token sequences are validated and replayed; distinct non-trivial = distinct (grammar, committed tokens) whose mask has more than one and fewer than all tokens",
+        quick_cases: 45,
+        thorough_cases: 450,
+        gen: c01::gen_case,
+        run: c01::run_case,
+    }, Prop {
         id: "C04",
         rule: "case = random regex AST (classes, negated classes, '.', bounded/unbounded repetition, alternation, (?i), non-ASCII literals; & and ~ in Lark terminal form) in one of three concrete syntaxes; byte strings exhaustive up to length maxlen over <= 6 bytes taken from sampled members plus 'a','b','\\n',0xC3, plus members and their mutations; then 6 mask states over a synthetic multi-byte vocabulary with every token checked; distinct non-trivial = distinct (regex, syntax form) for which both accepted and rejected strings occurred",
         quick_cases: 60,
